@@ -31,7 +31,7 @@ def exists(f, lo=None, hi=None):
 def forall_int(f):
     n = f.__code__.co_argcount
     if n == 1:
-        return all(f(k) for k in INT_WINDOW)
+        return all(f(k) for k in range(-200, 2001))
     rng = range(-50, 400)
     return all(f(a, b) for a in rng for b in rng)
 
@@ -57,6 +57,51 @@ def sum_(f, lo, hi):
 
 def is_int(x):
     return abs(x - round(x)) < 1e-9
+
+
+EPS = 1e-9
+
+
+def _c(op, a, b):
+    """comparison with the tolerance that assumption A1 needs natively (floats stand for exact reals)"""
+    num = lambda x: isinstance(x, (int, float)) and not isinstance(x, bool)
+    if num(a) and num(b):
+        if op == "==":
+            return abs(a - b) <= EPS * max(1.0, abs(a), abs(b))
+        if op == "!=":
+            return not abs(a - b) <= EPS * max(1.0, abs(a), abs(b))
+        if op == "<=":
+            return a <= b + EPS * max(1.0, abs(a), abs(b))
+        if op == ">=":
+            return a + EPS * max(1.0, abs(a), abs(b)) >= b
+        if op == "<":
+            return a < b - EPS * max(1.0, abs(a), abs(b))
+        if op == ">":
+            return a > b + EPS * max(1.0, abs(a), abs(b))
+    if isinstance(a, (tuple, list)) and isinstance(b, (tuple, list)) and op in ("==", "!=") and len(a) == len(b):
+        eq = all(_c("==", x, y) for x, y in zip(a, b))
+        return eq if op == "==" else not eq
+    return {"==": lambda: a == b, "!=": lambda: a != b, "<=": lambda: a <= b, ">=": lambda: a >= b, "<": lambda: a < b, ">": lambda: a > b}[op]()
+
+
+class TolerantCompare(ast.NodeTransformer):
+    OPS = {ast.Eq: "==", ast.NotEq: "!=", ast.LtE: "<=", ast.GtE: ">=", ast.Lt: "<", ast.Gt: ">"}
+
+    def visit_Compare(self, node):
+        self.generic_visit(node)
+        if not all(type(o) in self.OPS for o in node.ops):
+            return node
+        parts = []
+        left = node.left
+        for o, r in zip(node.ops, node.comparators):
+            parts.append(ast.Call(func=ast.Name(id="__c", ctx=ast.Load()), args=[ast.Constant(self.OPS[type(o)]), left, r], keywords=[]))
+            left = r
+        new = parts[0] if len(parts) == 1 else ast.BoolOp(op=ast.And(), values=parts)
+        return ast.copy_location(new, node)
+
+
+def tolerant(tree):
+    return ast.fix_missing_locations(TolerantCompare().visit(tree))
 
 
 class _Sort:
@@ -95,6 +140,7 @@ def load(contracts_dir):
     for k in ("requires", "ensures", "raises", "modifies", "modifies_all", "modifies_list", "modifies_map", "invariant", "decreases", "local", "trusted", "note", "cover"):
         base[k] = noop
     ns.update(base)
+    ns["__c"] = _c
     # names of repo enums used in clauses
     try:
         from flumine.order.order import OrderStatus
@@ -111,7 +157,7 @@ def load(contracts_dir):
             continue
         try:
             src = open(f).read()
-            exec(compile(ast.parse(src), f, "exec"), ns)
+            exec(compile(tolerant(ast.parse(src)), f, "exec"), ns)
         except Exception as e:  # a sidecar that cannot be read natively only costs replays, never verdicts
             ns.setdefault("__load_errors__", []).append("%s: %r" % (f, e))
     ns["__structs__"] = structs
